@@ -18,6 +18,12 @@ CHECKS = {
         text="Termination only (not the 'time proportional to input size' clause): each of the package's while loops has a sidecar variant proved >= 0 under the guard and strictly decreasing on every back edge from an arbitrary state; "
              "every infinite iterator is bounded; no loop grows what it iterates; every recursive component has a declared measure, structural call sites discharged, the others listed as NOT discharged and backed by the bounded watchdog only.",
         note="Assumed: stdlib/black/ast.parse terminate, AST inputs are finite trees, iterables from callers are finite, declared variable sorts are the run-time types; recursive call sites marked 'assumed' in contracts/C11.py are not proved."),
+    "C17": dict(
+        category="proof", design_ref="DESIGN.md §5 C17, §2.2",
+        technique="contract-based verification by effect/frame analysis: closed inventory of exec/import/spawn/network/write sites per entry point over the import-aware call graph (E2), flag-sensitive for --input-eval, plus a clean() refinement-type check on the single eval argument",
+        text="For every parser, emitter, doctrans, sync, sync_properties and gen entry point, every reachable EXEC / dynamic-import / spawn / network / file-write site is in the declared inventory (a new or newly reachable site fails a named obligation); "
+             "sync_properties cannot reach the eval of the input module unless input_eval; the one eval reachable from parsers receives only strings built from characters that passed the word_chars/separator filter and clean constants (no '(' , '_' , '=' , ':' , '@'). Holds for all inputs because the obligations never look at the input.",
+        note="Assumed: call graph over-approximates real calls (dynamic dispatch of get_parser/get_emitter declared), primitive-effect tables complete, evaluating a clean expression against docstring_parsers' globals is harmless (not proved), third-party code (black) has no such effects."),
 }
 
 NA_REASON = "check not built yet (work in progress; see DESIGN.md for the plan)"
@@ -34,6 +40,7 @@ m = {
     },
     "engines": [
         {"name": "cddvc-E1", "path": "cddvc/symexec.py", "serves_properties": sorted(CHECKS), "kind_free_text": "AST -> verification conditions (symbolic execution with contracts, loop invariants/variants, abstract list views) discharged by z3 5.1 / cvc5 / z3 4.8"},
+        {"name": "cddvc-E2", "path": "cddvc/effects.py", "serves_properties": ["C17"], "kind_free_text": "effect / frame checker over the call graph, flag-guard dominance; cddvc/charset.py refinement check"},
         {"name": "cddvc-E5", "path": "cddvc/termination.py", "serves_properties": ["C11"], "kind_free_text": "termination rules over the import-aware call graph (cddvc/callgraph.py)"},
     ],
     "checks": [],
